@@ -308,6 +308,12 @@ partial def step (s : St) (line : String) : St × String :=
         | _, _ => Cursor.newLoads old new
       let names := (loaded.map fun t => bstr (nodeName s.enc t)).toArray.qsort (· < ·) |>.toList
       (s', r ++ " ;" ++ " ".intercalate names)
+  | ["decj", hx] =>
+      match Json.decJson (unhexS hx) with
+      | none => (s, "err")
+      | some raw =>
+          let part (l : List (Option Bytes)) := "".intercalate (l.map fun o => ":" ++ (match o with | some b => hex b | none => "-"))
+          (s, "k" ++ part raw.keys ++ " v" ++ part raw.vals ++ " l" ++ part raw.links)
   | ["cceil", c, k] =>
       match nat c, nat k with
       | some c, some k =>
